@@ -82,8 +82,9 @@ outer:
 			continue
 		}
 		var prevStr string
-		for _, str := range values {
-			if str != prevStr {
+		for j, str := range values {
+			// the first value is always new, even when it is the empty string
+			if j == 0 || str != prevStr {
 				d.keyBuilder.WriteString(str)
 				d.keyBuilder.WriteRune('•')
 				fieldCount += 1
